@@ -1,6 +1,7 @@
 package checks
 
 import (
+	"regexp"
 	"bytes"
 	"fmt"
 	"go/ast"
@@ -151,6 +152,7 @@ func C04(c *Ctx) {
 	}
 	c.c04Unicode()
 	c.runKnownC04()
+	c.runKnownC09()
 }
 
 func (c *Ctx) c04Chunk(gs []*gast.Grammar, flagSets [][]string, rng *rand.Rand) {
@@ -247,18 +249,32 @@ func (c *Ctx) c04Chunk(gs []*gast.Grammar, flagSets [][]string, rng *rand.Rand) 
 // c04Sig recognises known finding F12: the method name on<Rule><index> is ambiguous when one rule
 // name is another rule's name followed by digits.
 func c04Sig(u *Unit) []string {
-	if !strings.Contains(u.Fail, "already declared") && !strings.Contains(u.Fail, "redeclared") {
+	ms := c04ClashRe.FindAllStringSubmatch(u.Fail, -1)
+	if len(ms) == 0 {
+		// known finding F07 (see C09): a rule inlined by -optimize-grammar brings a label its host
+		// already has, and the block's parameter list names it twice
+		if u.HasFlag("-optimize-grammar") && strings.Contains(u.Fail, "redeclared in this block") && gast.InlineClash(u.G) {
+			return []string{"F07-inline-label-clash"}
+		}
 		return nil
 	}
-	for _, a := range u.G.Rules {
-		for _, b := range u.G.Rules {
-			if a != b && strings.HasPrefix(b.Name, a.Name) && isDigits(b.Name[len(a.Name):]) {
-				return []string{"F12-method-name-clash"}
+	// every clashing method name must be explained by two distinct rules a, b with
+	// name == a.Name + digits == b.Name + digits
+	for _, m := range ms {
+		n := 0
+		for _, a := range u.G.Rules {
+			if strings.HasPrefix(m[1], a.Name) && isDigits(m[1][len(a.Name):]) {
+				n++
 			}
 		}
+		if n < 2 {
+			return nil
+		}
 	}
-	return nil
+	return []string{"F12-method-name-clash"}
 }
+
+var c04ClashRe = regexp.MustCompile(`(?:current|parser)\.(?:call)?on(\S+) (?:already declared|redeclared)`)
 
 func isDigits(s string) bool {
 	if s == "" {
@@ -287,7 +303,14 @@ func c04Strata() []*gast.Grammar {
 		{Name: "Expr", Expr: gast.S(gast.Ref("P"), gast.L("b"), gast.Opt(gast.Ref("Expr")))},
 		{Name: "P", Expr: gast.S(gast.AndC(3, mon.Spec{}), gast.NotC(4, mon.Spec{B: 1}), gast.L("x"))},
 	}}
-	return []*gast.Grammar{g1, g2}
+	// rule names that differ only in case, each with a code block at the same expression index
+	g3 := &gast.Grammar{Rules: []*gast.Rule{
+		{Name: "pair", Expr: act(gast.S(gast.Ref("key"), gast.L("="), gast.Ref("Key"), gast.Opt(gast.Ref("KEY"))), 1)},
+		{Name: "key", Expr: act(gast.Plus(gast.Cl(gast.Chars("ab"))), 2)},
+		{Name: "Key", Expr: act(gast.Plus(gast.Cl(gast.Chars("xy"))), 3)},
+		{Name: "KEY", Expr: act(gast.L("!"), 4)},
+	}}
+	return []*gast.Grammar{g1, g2, g3}
 }
 
 func (c *Ctx) runKnownC04() {
